@@ -547,6 +547,11 @@ func (c *c08Db) runTx(t *hTx, mode, prog string) *c08Seg {
 		ctx = ctx.GetSystemContext()
 	}
 	x := &c08Exec{c: c, t: t, mode: mode, prog: prog}
+	// pseudo veto "@nilctx" (store_c08_w9.go): the caller brings no context, Db.Update / Db.Batch make one
+	callCtx := ctx
+	if c08NilCtxApplies(t, prog) {
+		callCtx = nil
+	}
 	// pseudo veto "@rawtx": the caller opens the bbolt transaction itself and wraps it with NewTxMutateContext
 	rawSpec, raw := c08PseudoVeto(t, c08RawTx)
 	if raw {
@@ -594,11 +599,11 @@ func (c *c08Db) runTx(t *hTx, mode, prog string) *c08Seg {
 	if raw {
 		err = c.runRawTx(rawSpec, t.Sys, body)
 	} else if partners, co := c08PseudoVeto(t, c08CoBatch); co && mode == "bat" && partners != "" {
-		err = c.runCoalesced(ctx, body, partners)
+		err = c.runCoalesced(callCtx, body, partners)
 	} else if mode == "bat" {
-		err = h.db.Batch(ctx, body)
+		err = h.db.Batch(callCtx, body)
 	} else {
-		err = h.db.Update(ctx, body)
+		err = h.db.Update(callCtx, body)
 	}
 	inTime := c.await(err == nil, len(x.regC))
 
@@ -804,6 +809,7 @@ func runC08(o *opts) error {
 		stats["mode_"+mode]++
 		stats["wiring_"+w.Name]++
 		stats["tx"] += len(txs)
+		c08NilCtxStats(stats, txs, progs)
 		for _, t := range txs {
 			stats["ops"] += len(t.Ops)
 			for _, op := range t.Ops {
@@ -866,6 +872,7 @@ func runC08(o *opts) error {
 		return nil
 	}
 	r := newRng(o.seed)
+	rNil := newRng(o.seed ^ 0x6e696c637478) // own stream of store_c08_w9.go
 	for i := 0; i < n+nb+nsw; i++ {
 		if c08Timeouts >= 25 {
 			stats["aborted_after_timeouts"] = i
@@ -888,6 +895,11 @@ func runC08(o *opts) error {
 		}
 		var regs []c08Reg
 		var kind c08History
+		// in a quarter of the histories most callers bring no context, elsewhere some do
+		nilPct := 10
+		if rNil.chance(25) {
+			nilPct = 70
+		}
 		if mode != "swl" {
 			regs = g.genRegs()
 			g.genRegPass(regs) // how the caller hands the types over (store_c08_regpass.go)
@@ -907,7 +919,8 @@ func runC08(o *opts) error {
 			if r.chance(callerPct) {
 				g.callerShape(t) // a caller that reuses / changes the structs it passes (store_c08_caller.go)
 			}
-			return t, g.shape(t, mode, kind)
+			prog := g.shape(t, mode, kind)
+			return t, c08NilCtxShape(rNil, t, mode, prog, nilPct) // a caller that brings no context (store_c08_w9.go)
 		}, mode, tmp)
 		if err != nil {
 			return err
